@@ -1,0 +1,68 @@
+//go:build verif
+
+// Package verifhook holds the instrumentation points used by the deterministic
+// simulation harness. With the build tag "verif" every call is forwarded to the
+// implementation installed in Impl (nil means no-op).
+package verifhook
+
+type Hooks interface {
+	// Acquire is called immediately before a mutex Lock, Release immediately after Unlock.
+	Acquire(owner any, kind string, obj any)
+	Release(owner any, kind string, obj any)
+	// Point is a named boundary: the simulator may yield, pause or crash the caller here.
+	Point(owner any, name string)
+	// Fault is a named fallible step: a non-nil result is returned by the caller as an error.
+	Fault(owner any, name string) error
+	// Go is the first statement of a goroutine the simulator has to schedule.
+	Go(owner any, name string)
+	// Access reports a read or write of state shared without a lock.
+	Access(owner any, obj string, write bool)
+	// Knob lets the simulator override a tuning constant.
+	Knob(name string, def int) int
+}
+
+var Impl Hooks
+
+func Acquire(owner any, kind string, obj any) {
+	if Impl != nil {
+		Impl.Acquire(owner, kind, obj)
+	}
+}
+
+func Release(owner any, kind string, obj any) {
+	if Impl != nil {
+		Impl.Release(owner, kind, obj)
+	}
+}
+
+func Point(owner any, name string) {
+	if Impl != nil {
+		Impl.Point(owner, name)
+	}
+}
+
+func Fault(owner any, name string) error {
+	if Impl != nil {
+		return Impl.Fault(owner, name)
+	}
+	return nil
+}
+
+func Go(owner any, name string) {
+	if Impl != nil {
+		Impl.Go(owner, name)
+	}
+}
+
+func Access(owner any, obj string, write bool) {
+	if Impl != nil {
+		Impl.Access(owner, obj, write)
+	}
+}
+
+func Knob(name string, def int) int {
+	if Impl != nil {
+		return Impl.Knob(name, def)
+	}
+	return def
+}
